@@ -14,6 +14,7 @@ from dalimc.spec import ref_codec as R
 from . import _cmdspace as S
 
 ID = "C02"
+OPTIMISED_STRIDE = {"quick": 16, "thorough": 16}      # every k-th shard once more in an interpreter started with -O
 LEVEL = "exploration"
 ENGINE = "E1"
 TECHNIQUE = "exhaustive enumeration of constructor argument space; construct -> frame -> real decoder -> structural and library-level equality"
